@@ -11,6 +11,7 @@ import (
 	"path/filepath"
 	"runtime"
 	"sync"
+	"sync/atomic"
 	"time"
 
 	mycoria "github.com/mycoria/mycoria"
@@ -162,6 +163,41 @@ func runC20(c *Ctx) error {
 			special = append(special, a)
 		}
 	}
+	// ---------- (a2) a worker started right before the stop ----------
+	// A module starts a worker and is stopped at once (Cancel, WaitForWorkers, as Group.Stop does it):
+	// "no worker left" is reported only when the worker has finished, whether or not the new
+	// goroutine had been scheduled when the stop began.
+	for rep, n := 0, c.Pick(40, 200); rep < n; rep++ {
+		mm := mgr.New(fmt.Sprintf("late%d", rep))
+		hold := make(chan struct{})
+		var finished atomic.Bool
+		ignores := rep%2 == 0
+		mm.Go("worker started right before the stop", func(w *mgr.WorkerCtx) error {
+			if ignores {
+				<-hold // does not react to cancellation
+			} else {
+				<-w.Done()
+			}
+			finished.Store(true)
+			return nil
+		})
+		mm.Cancel()
+		done := mm.WaitForWorkers(40 * time.Millisecond)
+		fin := finished.Load()
+		close(hold)
+		c.Eval()
+		c.Count(fmt.Sprintf("stop-right-after-start:ignores-cancellation=%v", ignores))
+		if done && !fin {
+			c.Violate("a stop that follows the start of a worker at once reports that no worker is left while that worker has not finished", "worker-missed-by-stop", map[string]any{"ignores_cancellation": ignores})
+			break
+		}
+		if ignores && done {
+			c.Violate("a stop reports that no worker is left although a worker that ignores cancellation is still running", "worker-missed-by-stop", map[string]any{"ignores_cancellation": ignores})
+			break
+		}
+		mm.WaitForWorkers(time.Second)
+	}
+	c.NonTrivial("stop-right-after-start")
 	base := goroutines()
 	cycles := c.Pick(3, 9)
 	for cy := 0; cy < cycles; cy++ {
